@@ -122,6 +122,7 @@ func runOnce(t *testing.T, sc *Scenario, tape *Tape, keepLog bool) (res RunResul
 		tape.Trace = keepLog
 		w.Start = time.Now()
 		w.S = simrt.New()
+		w.S.OnSpawn = w.onSpawn
 		tape.Phase = "build"
 		defer func() {
 			// whatever happens, leave no parked goroutine behind
